@@ -273,4 +273,31 @@ example : each
       ⟨0, [1, 2, 2, 3], [0, 1, 2, 3], [⟨1, .common, "p1", some "A", []⟩]⟩ ]
     = some [⟨0, 1, 4⟩, ⟨0, 1, 1⟩, ⟨1, 2, 42⟩] := by decide
 
+/-! ## `NewWorldWithBase` chains -/
+
+/-- A world whose base is another world (`NewWorldWithBase`: `findWithoutCache` falls through to
+`f.base.FindFeatureByID`) answers lookups like one world holding its own blocks followed by the base's. -/
+theorem chain_lookup (top base : List (Block α β)) (id : ID) :
+    find (top ++ base) id = (find top id).or (find base id) := by
+  unfold find
+  split
+  · exact findIn_append top base id
+  · rfl
+
+/-- … and locations likewise (`FindLocationByID` falls through to `f.base.FindLocationByID`). -/
+theorem chain_location (top base : List (Block α β)) (id : ID) :
+    loc (top ++ base) id = (loc top id).or (loc base id) := loc_append top base id
+
+/-! ## The class of finding `cross-file-referrer` -/
+
+/-- What the driver's class predicate says: the merged answer `m` only lacks referrers of the union's answer
+`u`, and each referrer it lacks shares no file with the feature asked about. -/
+theorem crossFileOnly_spec (fs : List (File α β κ)) (id : ID) (m u : List ID)
+    (h : crossFileOnly fs id m u = true) :
+    (∀ x ∈ m, x ∈ u) ∧ ∀ x ∈ u, x ∉ m → sameFile fs x id = false := by
+  unfold crossFileOnly at h
+  simp only [Bool.and_eq_true, List.all_eq_true, List.mem_filter, Bool.not_eq_true', and_imp] at h
+  refine ⟨fun x hx => by simpa using h.1 x hx, fun x hx hnm => ?_⟩
+  exact h.2 x hx (by simpa using hnm)
+
 end B6.Props.C17
